@@ -2,6 +2,7 @@
 # Runs every registered check at the given tier and prints one line per check.
 cd "$(dirname "$0")/.."
 TIER="${1:-quick}"
+mkdir -p target
 for id in $(python3 -c "import json;print(' '.join(c['property_id'] for c in json.load(open('MANIFEST.json'))['checks']))"); do
   s=$(date +%s)
   ./check "$id" --tier "$TIER" > "target/run-$id.log" 2>&1
